@@ -2,13 +2,15 @@
 (* Stage A for C15: the reader machine of Qos.tla on the whole generator tree (every marshalled
    case, every proper prefix, every identifier octet replaced by the unknown values, enlarged
    counts).  Stage B (MC_C15_gen.cfg): the same module prints every case as JSON with the
-   single-octet replacements to try; for cases with a single identifier octet ALL unknown values
-   are listed. *)
+   single-octet replacements to try; for the single-component / single-parameter cases whose
+   variant is in FullUnk, ALL unknown identifier values are listed. *)
 EXTENDS Qos, Json
+CONSTANT FullUnk
 AllUnknown(k) == (0..255) \ (IF k = "rules" THEN CompTypes ELSE ParamIds)
-GenMuts(k, x) == LET ids == IdPos(k, x) IN
-                 {<<mu[1], mu[2]>> : mu \in Muts(k, x)} \cup
-                 (IF Cardinality(ids) = 1 THEN {<<p, u>> : p \in ids, u \in AllUnknown(k)} ELSE {})
+Singles(k) == IF k = "rules" THEN {<<MkRule(1, 1, TRUE, <<MkFilter(1, 3, <<Comp(t, var)>>)>>, 10, FALSE, 5)>> : t \in CompTypes, var \in FullUnk}
+              ELSE {<<MkDesc(9, 1, <<Param(i, var)>>)>> : i \in ParamIds, var \in FullUnk}
+GenMuts(k, x) == {<<mu[1], mu[2]>> : mu \in Muts(k, x)} \cup
+                 (IF x \in Singles(k) THEN {<<p, u>> : p \in IdPos(k, x), u \in AllUnknown(k)} ELSE {})
 GenCases(k) == IF k = "rules" THEN RuleCases(TRUE) ELSE DescCases(TRUE)
 GenInit == Inputs(GenCases, FALSE)
 EmitCase == (phase \notin Final /\ pos = 1 /\ out = <<>>) =>
